@@ -99,7 +99,12 @@ class Check(PropertyCheck):
                   "stream, for any pending queries and addon script), `run_coalesce`/`interleaved_seg_independent`/"
                   "`coalesce_segments` (any two schedules interleaving client segments, server segments and closes that carry "
                   "the same bytes between changes of direction are indistinguishable), `bad_length_closes`, "
-                  "`bad_length_closes_server`, `done_is_final`. "
+                  "`bad_length_closes_server`, `done_is_final`, `stray_reply_ignored` (after EVERY history, upstream data in which no message "
+                  "has id and question section of a query the client sent fires no hook and sends nothing; the state is untouched "
+                  "except that the de-framer advances exactly as for solicited data), `upstream_reply_cases` (handled iff the flow "
+                  "table holds a flow with that id and question section — first reply and duplicate alike), "
+                  "`buffered_server_segment_commutes`/`split_frame_around_query` (an upstream segment that completes no frame "
+                  "commutes with the following client segment; a frame split around a client query = delivered whole after it). "
                   "The model is tied differentially to the real DNSLayer driven through harness/common/world.py.")
     level_note = ("trusted: Lean kernel; hand-written model tied differentially (per event: every dns hook with the flow's "
                   "request/response/error as the addon sees them, bytes sent to client and server, connect attempts and results, "
@@ -109,14 +114,25 @@ class Check(PropertyCheck):
                   "connect is pending; exercised on the code by the burst variant with deferred hooks, not proved). The "
                   "interleaving theorem keeps the relative order of client and server bytes at every change of direction "
                   "(moving a reply in front of its query is a different schedule, not a different segmentation). What the client decodes from forwarded upstream replies is "
-                  "C26's theorem; here messages are compared before `pack` (`reply_is_packed` links them to the bytes).")
+                  "C26's theorem; here messages are compared before `pack` (`reply_is_packed` links them to the bytes). "
+                  "Oracle: every expected value is derived from the case's inputs with an independent framing and the DnsRef twin "
+                  "decoder; no Skip, no masked field in the tie. Lenient branches (each pinned by known_selftest with an "
+                  "observation just outside it): L1 a client frame the reference decoder cannot read counts as a query with its "
+                  "header id and unknown question section; L2 a message to the client is exempt from the id/question clause iff it "
+                  "renders exactly (id included) as a response an addon action of the case sets; L3 a crash is excused iff the "
+                  "response about to be sent was set by an action with id > 65535; L4 a zero length prefix need not close iff an "
+                  "earlier event already ended the layer; L5 question sections with a non-plain label are not compared between "
+                  "the wire and the text rendering; L6 events the world did not deliver are not counted as sent. Bytes sent to "
+                  "the SERVER are compared with the model only (the property does not speak about them).")
     technique = "Lean 4 proof (invariants over all schedules, Incremental segmentation law) + differential correspondence through the real DNSLayer"
     rule = ("query/reply schedules over UDP and TCP built from a small pool of ids (heavy id reuse), names and types: matching "
             "replies in any order, unsolicited ids, right id with a different question section, duplicated replies, "
             "retransmitted and re-used ids, connect failures, no upstream, addon actions in every hook, closes at any point, "
             "raw bytes; TCP streams re-segmented at random (frames cut, neighbours merged, other direction interleaved) and "
-            "streams of valid frames followed by zero-length / over-long / undecodable frames with EVERY 2-split. Every case "
-            "is additionally re-run merged, byte-by-byte and with deferred hooks. distinct = distinct case; non-trivial = at "
+            "streams of valid frames followed by zero-length / over-long / undecodable frames with EVERY 2-split, "
+            "plus stray upstream frames (duplicate, unknown id, other question) cut in two around a new client query. Every case "
+            "is additionally re-run merged, byte-by-byte, with deferred hooks and (where an upstream segment completes no frame) "
+            "with that segment and the following client segment exchanged. distinct = distinct case; non-trivial = at "
             "least one dns hook fired.")
     budget = {"quick": 2500, "thorough": 100000}
     time_budget = {"quick": 30, "thorough": 600}
@@ -139,6 +155,66 @@ class Check(PropertyCheck):
 
     def setup(self, tier):
         self._last = None
+        self.known_selftest()
+
+    def known_selftest(self):
+        """the oracle's lenient branches (L1–L6) are as narrow as stated: doctored observations just outside each must be
+        rejected, the ones just inside accepted. Independent of the tree under test (the oracle never calls it)."""
+        A, B = [b"a", b"com"], [b"b", b"org"]
+        rq = lambda i, n, rd=1, op=0, t=1: f"[{i},1,{op},0,0,{rd},0,0,0 {hx(b'.'.join(n))}:{t}:1 - - -]"
+        rs = lambda i, n, t=1: f"[{i},0,0,0,0,1,1,0,0 {hx(b'.'.join(n))}:{t}:1 - - -]"
+        q1 = mk_query(1, A)
+        sf = lambda i, n, rd=1: struct.pack("!HHHHHH", i, 0x8002 | (rd << 8), 1, 0, 0, 0) + D.wire_name(n) + struct.pack("!HH", 1, 1)
+        X = mk_reply(1, A, compress=False)
+        def ob(given, acts_at=None, delivered=None):
+            return {"given": given, "delivered": delivered or [True] * len(given), "notes": [], "variants": {},
+                    "acts_at": acts_at or [["p"] * sum(1 for x in it if x.startswith("hook ")) for it in given]}
+        udp = lambda evs, acts=(), up=True: {"transport": "udp", "upstream": up, "events": evs, "acts": list(acts), "conns": ""}
+        tcp = lambda evs, acts=(): {"transport": "tcp", "upstream": True, "events": evs, "acts": list(acts), "conns": ""}
+        bad5 = b"\x00\x05" + b"\xff" * 12
+        tests = [
+            ("sanity: SERVFAIL of the query", udp([["c", hx(q1)]], up=False),
+             ob([[f"hook dns_request {rq(1, A)} none 0", f"hook dns_error {rq(1, A)} none 1", "send client " + hx(sf(1, A))]]), None),
+            ("L3 outside: crash although the oversized addon response was never applied", udp([["c", hx(q1)]], ["p", "p", "r=" + hx(X) + "@70000"]),
+             ob([[f"hook dns_request {rq(1, A)} none 0", "open ok", "crash"]]), "exception left the layer"),
+            ("L3 outside: crash after an upstream reply passed through", udp([["c", hx(q1)], ["s", hx(X)]], ["p", "p", "r=" + hx(X) + "@70000"]),
+             ob([[f"hook dns_request {rq(1, A)} none 0", "open ok", "send server " + hx(q1)], [f"hook dns_response {rq(1, A)} {rs(1, A)} 0", "crash"]]),
+             "exception left the layer"),
+            ("L3 inside: oversized id set in dns_request", udp([["c", hx(q1)]], ["r=" + hx(X) + "@70000"]),
+             ob([[f"hook dns_request {rq(1, A)} none 0", f"hook dns_response {rq(1, A)} {rs(70000, A)} 0", "crash"]], [["r=" + hx(X) + "@70000", "p"]]), None),
+            ("L1 outside: unreadable client frame id 5 does not cover a reply with id 6", tcp([["c", hx(frame(bad5))]]),
+             ob([["send client " + hx(frame(mk_reply(6, A)))]]), "answers none of its queries"),
+            ("L1 inside: unknown question section for id 5", tcp([["c", hx(frame(bad5))]]),
+             ob([["send client " + hx(frame(mk_reply(5, B)))]]), None),
+            ("L2 outside: the addon's response under another id", udp([["c", hx(q1)]], ["r=" + hx(X)]),
+             ob([[f"hook dns_request {rq(1, A)} none 0", f"hook dns_response {rq(1, A)} {rs(1, A)} 0", "send client " + hx(mk_reply(2, A, compress=False))]],
+                [["r=" + hx(X), "p"]]), "answers none of its queries"),
+            ("L4 outside: zero length prefix, only the other side closed in the same event", tcp([["c", hx(frame(q1) + b"\x00\x00")]]),
+             ob([[f"hook dns_request {rq(1, A)} none 0", "open ok", "send server " + hx(frame(q1)), "close server"]]), "zero length prefix"),
+            ("L4 inside: the layer had ended before", tcp([["c", hx(frame(q1))], ["sc"], ["c", "0000"]]),
+             ob([[f"hook dns_request {rq(1, A)} none 0", "open ok", "send server " + hx(frame(q1))], ["close client"], []]), None),
+            ("request the client never sent", udp([["c", hx(q1)]]),
+             ob([[f"hook dns_request {rq(2, B)} none 0", "open ok", "send server " + hx(mk_query(2, B))]]), "the client never sent"),
+            ("L6 outside: an undelivered datagram is not a query", udp([["c", hx(q1)]]),
+             ob([[f"hook dns_request {rq(1, A)} none 0"]], delivered=[False]), "the client never sent"),
+            ("second dns_request announces the first message again", udp([["c", hx(q1)], ["c", hx(mk_query(2, B))]]),
+             ob([[f"hook dns_request {rq(1, A)} none 0"], [f"hook dns_request {rq(1, A)} none 0"]]), "dns_request #1 announces"),
+            ("SERVFAIL agrees with the reported flow but not with the bytes the client sent (RD)", udp([["c", hx(q1)]], up=False),
+             ob([[f"hook dns_request {rq(1, A, rd=0)} none 0", f"hook dns_error {rq(1, A, rd=0)} none 1", "send client " + hx(sf(1, A, rd=0))]]),
+             "keeps id/questions/opcode/RD of none"),
+            ("L5 outside: plain question sections are compared", udp([["c", hx(q1)], ["s", hx(mk_reply(1, B))]]),
+             ob([[f"hook dns_request {rq(1, A)} none 0", "open ok", "send server " + hx(q1)],
+                 [f"hook dns_response {rq(1, A)} {rs(1, B)} 0", "send client " + hx(mk_reply(1, B))]]), "pairs query"),
+            ("flow without request", udp([["c", hx(q1)], ["s", hx(mk_reply(77, A))]]),
+             ob([[f"hook dns_request {rq(1, A)} none 0", "open ok", "send server " + hx(q1)],
+                 [f"hook dns_response none {rs(77, A)} 0", "send client " + hx(mk_reply(77, A))]]), "without request"),
+        ]
+        for name, case, obs, want in tests:
+            got = self.oracle(case, obs)
+            if want is None:
+                assert not got, f"oracle selftest '{name}': should be accepted, got {got}"
+            else:
+                assert any(want in g for g in got), f"oracle selftest '{name}': should be rejected with '{want}', got {got}"
 
     # ------------------------------------------------------------------ generators
     def _acts(self, rng, n, heavy):
@@ -250,11 +326,27 @@ class Check(PropertyCheck):
                     segs = [s for s in (stream[:p], stream[p:]) if s]
                     yield {"transport": "tcp", "upstream": True, "events": pre + [[dirn, hx(s)] for s in segs], "acts": [], "conns": ""}
 
+    def _stray_case(self, rng):
+        """an upstream frame nobody waits for (duplicate, unknown id, other question), cut in two around a new client query"""
+        n1, n2 = rng.pick(NAMES), rng.pick(NAMES)
+        i1, i2 = rng.pick([1, 5]), rng.pick([2, 5])
+        q1, q2 = mk_query(i1, n1), mk_query(i2, n2, 28)
+        r1, r2 = mk_reply(i1, n1), mk_reply(i2, n2, 28, n_answers=rng.randint(0, 2))
+        stray = frame(rng.pick([r1, mk_reply(77, n1), mk_reply(i1, rng.pick(NAMES), 15), mk_reply(i2, n2, 28)]))
+        k = rng.randint(1, len(stray) - 1)
+        evs = [["c", hx(frame(q1))], ["s", hx(frame(r1))], ["s", hx(stray[:k])], ["c", hx(frame(q2))]]
+        tail = stray[k:] + frame(r2)
+        evs += [["s", hx(tail)]] if rng.chance(0.5) else [["s", hx(x)] for x in rng.split(tail)]
+        if rng.chance(0.2): evs.pop(1)
+        return {"transport": "tcp", "upstream": True, "events": evs, "acts": self._acts(rng, rng.randint(0, 3), False), "conns": ""}
+
     def generate(self, rng, tier):
         for c in self._split_cases(None):
             yield c
         while True:
-            if rng.chance(0.08):
+            if rng.chance(0.07):
+                yield self._stray_case(rng)
+            elif rng.chance(0.08):
                 cs = list(self._split_cases(rng))
                 for _ in range(8): yield rng.pick(cs)
             else:
@@ -364,6 +456,20 @@ class Check(PropertyCheck):
         return per_event, delivered, sorted(notes)
 
     @staticmethod
+    def _commutable(case, delivered):
+        """index i of the first delivered upstream segment that (by the independent framing of the upstream's bytes)
+        completes no frame and is directly followed by a client segment; None if there is none"""
+        if case["transport"] != "tcp": return None
+        evs, stream = case["events"], b""
+        for i, e in enumerate(evs):
+            if e[0] != "s" or len(e) != 2 or not delivered[i]: continue
+            before = list(walk_frames(stream)); stream += unhx(e[1]); after = list(walk_frames(stream))
+            if before[-1][0] == "zero": return None
+            if len(after) == len(before) and after[-1][0] == "partial" and i + 1 < len(evs) and evs[i + 1][0] == "c" and len(evs[i + 1]) == 2:
+                return i
+        return None
+
+    @staticmethod
     def _merge(events):
         out = []
         for e in events:
@@ -395,6 +501,11 @@ class Check(PropertyCheck):
             variants["bytewise"] = flat(self._run(case, self._bytewise(events))[0])
         if any(a[0] == "c" and b[0] == "c" for a, b in zip(events, events[1:])):
             variants["burst"] = flat(self._run(case, events, burst=True)[0])
+        sw = self._commutable(case, delivered)
+        if sw is not None:
+            # Props `buffered_server_segment_commutes`: an upstream segment that completes no frame may change places with
+            # the client segment that follows it
+            variants["commuted"] = flat(self._run(case, events[:sw] + [events[sw + 1], events[sw]] + events[sw + 2:])[0])
         obs = {"given": given, "delivered": delivered, "notes": notes, "variants": variants, "acts_at": acts_at}
         self._last = (json.dumps(case, sort_keys=True), obs)
         return obs
